@@ -1,5 +1,6 @@
 import IrVerif.Drive.Util
 import IrVerif.Model.Path
+import Std.Data.HashMap
 open Lean IrVerif.Drive
 namespace IrVerif.Drive.Path
 open IrVerif.Path
@@ -25,8 +26,10 @@ def lookupIno (is : List (Nat × Nat × List Nat)) (i : Nat) : Nat × List Nat :
 /-- `{"entries": [[path, "d"|"f"|"l", arg], ...], "inodes": [[id, nlink, data], ...]}` -/
 def parseFS (j : Json) : Except String FS := do
   let es ← getArr j "entries"
-  let mut entries : List (Loc × Node) := []
-  let mut dns : List (Loc × Nat) := []
+  -- hash tables instead of association lists (trees with names of PATH_MAX bytes and more); a later entry of the
+  -- same location replaces an earlier one, as with the lists
+  let mut entries : Std.HashMap Loc Node := {}
+  let mut dns : Std.HashMap Loc Nat := {}
   for e in es do
     let a ← e.getArr?
     if a.size != 3 then throw "entry: expected 3 fields"
@@ -38,15 +41,15 @@ def parseFS (j : Json) : Except String FS := do
       | "l" => do pure (Node.link (← a[2]!.getStr?).toList)
       | "o" => do pure (Node.other (← a[2]!.getNat?))
       | _ => throw "entry kind"
-    entries := (comps p.toList, n) :: entries
-    if k == "d" then dns := (comps p.toList, (a[2]!.getNat?).toOption.getD 2) :: dns
+    entries := entries.insert (comps p.toList) n
+    if k == "d" then dns := dns.insert (comps p.toList) ((a[2]!.getNat?).toOption.getD 2)
   let is ← getArr j "inodes"
   let mut inodes : List (Nat × Nat × List Nat) := []
   for i in is do
     let a ← i.getArr?
     if a.size != 3 then throw "inode: expected 3 fields"
     inodes := (← a[0]!.getNat?, ← a[1]!.getNat?, (← a[2]!.getStr?).toList.map Char.toNat) :: inodes
-  return { node := lookupNode entries, dnlink := lookupDn dns, nlink := fun i => (lookupIno inodes i).1,
+  return { node := fun l => entries[l]?, dnlink := fun l => (dns[l]?).getD 2, nlink := fun i => (lookupIno inodes i).1,
            data := fun i => (lookupIno inodes i).2 }
 
 /-- `{"i": [names], "n": [{"t": [names], "g": [trees]}]}` -/
@@ -145,6 +148,38 @@ def handle : Handler := fun m j =>
         let r := callT fs kfuel fuel cwdS (comps cwdS) p b ep TState.fresh
         out := out.push (callJ r.1 r.2.1)
       return obj [("r", Json.arr out)]
+  | "path.readsP" => some do
+      -- PATH_MAX at every lstat / stat / open: queries [base, loc, offset, length] (a fresh tofile read)
+      let fs ← parseFS (← j.getObjVal? "fs")
+      let cwdS ← gs j "cwd"
+      let kfuel ← getNat j "kfuel"
+      let fuel ← getNat j "fuel"
+      let mut out : Array Json := #[]
+      for q in (← getArr j "queries") do
+        let a ← q.getArr?
+        if a.size != 4 then throw "query: expected 4 fields"
+        let base := (← a[0]!.getStr?).toList
+        let loc := (← a[1]!.getStr?).toList
+        let r := readP fs kfuel fuel cwdS (comps cwdS) base loc (← a[2]!.getNat?) (← a[3]!.getNat?)
+        out := out.push (callJ r.1 r.2)
+      return obj [("r", Json.arr out)]
+  | "path.readsTB" => some do
+      -- a bytes LOCATION: queries [kind, base, loc, offset, length, zero, ep]
+      let fs ← parseFS (← j.getObjVal? "fs")
+      let cwdS ← gs j "cwd"
+      let kfuel ← getNat j "kfuel"
+      let fuel ← getNat j "fuel"
+      let mut out : Array Json := #[]
+      for q in (← getArr j "queries") do
+        let a ← q.getArr?
+        if a.size != 7 then throw "query: expected 7 fields"
+        let b : BaseVal := { kind := ← parseKind (← a[0]!.getStr?), s := (← a[1]!.getStr?).toList }
+        let p : TensorP := { loc := (← a[2]!.getStr?).toList, offset := ← a[3]!.getNat?, length := ← a[4]!.getNat?,
+                             zero := ← a[5]!.getBool? }
+        let ep ← parseEP (← a[6]!.getStr?)
+        let r := callTB fs kfuel fuel cwdS (comps cwdS) p b ep TState.fresh
+        out := out.push (callJ r.1 r.2.1)
+      return obj [("r", Json.arr out)]
   | "path.world" => some do
       -- several tensors [[loc, offset, length, zero], ...] and a history of public operations:
       --   {"op":"fs","fs":{..}} | {"op":"base","t":n,"kind":..,"base":..} | {"op":"basedir","ts":[..],"kind":..,"base":..}
@@ -166,24 +201,30 @@ def handle : Handler := fun m j =>
         for v in arr do
           r := (← v.getNat?) :: r
         return r.reverse
-      let mut opsL : List WOp := []
+      let mut opsL : List COp := []
       for s in (← getArr j "ops") do
         let op ← s.getObjValAs? String "op"
         match op with
-        | "fs" => opsL := WOp.setFS (← parseFS (← s.getObjVal? "fs")) :: opsL
+        | "fs" => opsL := COp.op (WOp.setFS (← parseFS (← s.getObjVal? "fs"))) :: opsL
         | "base" =>
-          opsL := WOp.setBase (← getNat s "t")
-            { kind := ← parseKind (← s.getObjValAs? String "kind"), s := (← s.getObjValAs? String "base").toList } :: opsL
+          opsL := COp.op (WOp.setBase (← getNat s "t")
+            { kind := ← parseKind (← s.getObjValAs? String "kind"), s := (← s.getObjValAs? String "base").toList }) :: opsL
         | "basedir" =>
-          opsL := WOp.setBaseDir (← natList s "ts")
-            { kind := ← parseKind (← s.getObjValAs? String "kind"), s := (← s.getObjValAs? String "base").toList } :: opsL
-        | "release" => opsL := WOp.release (← getNat s "t") :: opsL
-        | "call" => opsL := WOp.call (← getNat s "t") (← parseEP (← s.getObjValAs? String "ep")) :: opsL
-        | "load" => opsL := WOp.loadToModel (← natList s "ts") :: opsL
+          opsL := COp.op (WOp.setBaseDir (← natList s "ts")
+            { kind := ← parseKind (← s.getObjValAs? String "kind"), s := (← s.getObjValAs? String "base").toList }) :: opsL
+        | "release" => opsL := COp.op (WOp.release (← getNat s "t")) :: opsL
+        | "call" => opsL := COp.op (WOp.call (← getNat s "t") (← parseEP (← s.getObjValAs? String "ep"))) :: opsL
+        | "load" => opsL := COp.op (WOp.loadToModel (← natList s "ts")) :: opsL
+        | "chdir" => opsL := COp.chdir (← s.getObjValAs? String "cwd").toList :: opsL
         | _ => throw s!"world op {op}"
       let w0 : World := { fs := { node := fun _ => none, dnlink := fun _ => 2, nlink := fun _ => 0, data := fun _ => [] },
                           ts := fun _ => { base := { kind := BaseKind.str, s := [] }, st := TState.fresh }, aborted := false }
-      let log := runWorld kfuel fuel cwdS (comps cwdS) ps w0 opsL.reverse
+      -- without a chdir this is runWorld (the history C10_world_safe is about); with one, runWorldC
+      let hasChdir := opsL.any (fun o => match o with | COp.chdir _ => true | _ => false)
+      let log : List WLog :=
+        if hasChdir then (runWorldC kfuel fuel ps cwdS w0 opsL.reverse).map Prod.snd
+        else runWorld kfuel fuel cwdS (comps cwdS) ps w0
+          (opsL.reverse.filterMap (fun o => match o with | COp.op x => some x | _ => none))
       let mut out : Array Json := #[]
       for e in log do
         out := out.push ((callJ e.res e.events).setObjVal! "t" (toJson e.t))
